@@ -37,7 +37,9 @@ type Obs = BTreeMap<(usize, u32), usize>; // (end, raw word id) -> multiplicity
 
 fn rows_of(entries: &[Entry], layer: u8) -> Vec<Row> {
     // every present layer has a fixed indexed base entry so that its index is never empty
-    let mut v = vec![Row::new("zz", 1, 1, 100, P_NOUN)];
+    // (the base entry of the second user dictionary asks for a computed cost: the loader then analyses "zz" with the
+    // dictionaries loaded so far, i.e. looks things up *before* this dictionary joins the set)
+    let mut v = vec![Row::new("zz", 1, 1, if layer == 2 { -32768 } else { 100 }, P_NOUN)];
     for e in entries.iter().filter(|e| e.layer == layer) {
         v.push(Row::new(&e.key, if e.indexed { 1 } else { -1 }, 1, 1000 + v.len() as i32, P_NOUN));
     }
